@@ -14,6 +14,8 @@ func init() {
 				j.Bound += " [full shipped test configuration]"
 				js = append(js, j)
 			}
+			js = append(js, f4Job("visibility", "VerifVisibility", 0, []string{"ran"}, []string{"C16-v-implicit", "C16-v-explicit", "C16-v-outside", "C16-v-fill"},
+				"target method defined in the class / its superclass / an included module / a module the superclass includes, under public / private / protected; called with an implicit receiver and on another instance from an instance method of the class, and from top level; methods defined before the visibility keyword and in the other classes are probed for leaks; returned kind Sym.a a solver variable; reference = Ruby's visibility rules"))
 			return js
 		},
 		Custom:    replayDemand,
